@@ -200,13 +200,16 @@ theorem restore_persist_full {s : St} {pns : List Nat} (h : StopState s pns) (oc
     rw [this]
     exact ⟨a, b, d, e1, e2⟩
   -- the start state
-  let s0 : St := { blank s.n s.workers s.tsteps (persist s).cstep (persist s).trajNum (persist s).seed occ s.ensEng true
-                     (persist s).locked with locked0Ord := (persist s).lockedOrd.map some }
+  let b0 : St := blank s.n s.workers s.tsteps (persist s).cstep (persist s).trajNum (persist s).seed occ s.ensEng true
+    (persist s).locked
+  let s0 : St := { b0 with
+    locked0Ord := (persist s).lockedOrd.map some
+    spawned := (persist s).spawnedRec.getD ((persist s).cstep + (persist s).locked.length) }
   have hs0n : s0.n = s.n := rfl
   obtain ⟨s1, p1, p2, p3, p4, p5, p6, p7, p8, p9⟩ := plus_spec wOf fOf rest s0 0
-    (by simp [s0, blank]) (by simp [s0, blank]) (by simp [s0, blank])
+    (by simp [s0, b0, blank]) (by simp [s0, b0, blank]) (by simp [s0, b0, blank])
     (by show 0 + rest.length < s.n; omega)
-    (by intro e _ he; simp only [s0, blank]; rw [List.getElem?_replicate]; simp; omega)
+    (by intro e _ he; simp only [s0, b0, blank]; rw [List.getElem?_replicate]; simp; omega)
     (by
       intro j pn hj
       have hp : pns[j + 1]? = some pn := by rw [hpns]; simpa using hj
@@ -223,7 +226,7 @@ theorem restore_persist_full {s : St} {pns : List Nat} (h : StopState s pns) (oc
   have hz : ((-1 : Int) + 1).toNat = 0 := by decide
   obtain ⟨z1, z2, z3⟩ := p8 0 (Or.inl (Nat.le_refl _))
   have hlast := loadOne_eq (s := s1) (ens := -1) (pn := pn0) (valid := wOf pn0) (fr := fOf pn0)
-    (by rw [hz, z3]; simp only [s0, blank]; rw [List.getElem?_replicate]; simp; omega)
+    (by rw [hz, z3]; simp only [s0, b0, blank]; rw [List.getElem?_replicate]; simp; omega)
     (by rw [padValid_congr hn1, hn1]; simpa using e01)
     (by rw [padValid_congr hn1, hz]; simpa using e02)
     (by rw [hz, p5]; show 0 < s.n; omega)
@@ -275,7 +278,7 @@ theorem restore_persist_full {s : St} {pns : List Nat} (h : StopState s pns) (oc
         rw [List.getElem?_set_ne (by omega)]
         obtain ⟨a, _, _⟩ := p8 (s.n - 1) (Or.inr (by show 0 + rest.length < s.n - 1; omega))
         rw [a, h.ghostW]
-        simp only [s0, blank]
+        simp only [s0, b0, blank]
         rw [List.getElem?_replicate]; simp; omega
     · rw [List.getElem?_eq_none (by simp only [List.length_set]; rw [p7]; show s.n ≤ e; omega),
           List.getElem?_eq_none (by rw [h.lenW]; omega)]
@@ -298,7 +301,7 @@ theorem restore_persist_full {s : St} {pns : List Nat} (h : StopState s pns) (oc
         rw [List.getElem?_set_ne (by omega)]
         obtain ⟨_, a, _⟩ := p8 (s.n - 1) (Or.inr (by show 0 + rest.length < s.n - 1; omega))
         rw [a, h.ghostT]
-        simp only [s0, blank]
+        simp only [s0, b0, blank]
         rw [List.getElem?_replicate]; simp; omega
     · rw [List.getElem?_eq_none (by simp only [List.length_set]; rw [p5]; show s.n ≤ e; omega),
           List.getElem?_eq_none (by rw [h.lenT]; omega)]
@@ -321,7 +324,7 @@ theorem restore_persist_full {s : St} {pns : List Nat} (h : StopState s pns) (oc
         rw [List.getElem?_set_ne (by omega)]
         obtain ⟨_, _, a⟩ := p8 (s.n - 1) (Or.inr (by show 0 + rest.length < s.n - 1; omega))
         rw [a, h.ghostL]
-        simp only [s0, blank]
+        simp only [s0, b0, blank]
         rw [List.getElem?_replicate]; simp; omega
     · rw [List.getElem?_eq_none (by simp only [List.length_set]; rw [p6]; show s.n ≤ e; omega),
           List.getElem?_eq_none (by rw [h.lenL]; omega)]
